@@ -81,7 +81,8 @@ def degenerate_sequences():
     seqs = [{"kind": "arithmetic", "initial_term": E.num(2), "difference": E.num(0)},
             {"kind": "arithmetic", "initial_term": E.sym("N"), "difference": E.num(0)},
             {"kind": "arithmetic", "initial_term": E.num(1), "difference": E.num(1)},
-            {"kind": "constant", "multiplier": E.num(0)}]
+            {"kind": "constant", "multiplier": E.num(0)},
+            {"kind": "geometric", "ratio": E.num(1)}]
     for seq in seqs:
         for count in (E.num(3), E.sym("K")):
             c = node("c", params=["N"], res=[{"name": "P", "type": "multiplicative", "value": E.op("add", E.sym("N"), E.num(1))},
